@@ -88,6 +88,26 @@ fn ops_case(inp: &[u64]) -> Result<(), String> {
     Ok(())
 }
 
+/// the rayon variants on vectors long enough to be split (the minimum split length is 100_000 words): input [len, seed]
+fn par_case(inp: &[u64]) -> Result<(), String> {
+    let len = inp[0] as usize; let mut rng = Rng(inp[1]);
+    let mut bv = BitVec::new(len);
+    bv.par_fill(true);
+    if bv.count_ones() != len || bv.par_count_ones() != len { return Err(format!("par_fill(true) left {} of {} bits set", bv.count_ones(), len)); }
+    for _ in 0..200 { let i = rng.below(len as u64) as usize; if !bv.get(i) { return Err(format!("par_fill(true): bit {} clear", i)); } }
+    for i in len.saturating_sub(70)..len { if !bv.get(i) { return Err(format!("par_fill(true): bit {} clear", i)); } }
+    let mut pos: Vec<usize> = (0..300).map(|_| rng.below(len as u64) as usize).collect(); pos.push(len - 1); pos.push(0); pos.sort(); pos.dedup();
+    for &p in &pos { bv.set(p, false); }
+    bv.par_flip();
+    if bv.par_count_ones() != pos.len() || bv.count_ones() != pos.len() { return Err(format!("par_flip: {} ones, expected {}", bv.count_ones(), pos.len())); }
+    for &p in &pos { if !bv.get(p) { return Err(format!("par_flip: bit {} not set", p)); } }
+    bv.par_reset();
+    if bv.count_ones() != 0 { return Err(format!("par_reset left {} ones", bv.count_ones())); }
+    bv.par_fill(false);
+    if bv.par_count_ones() != 0 { return Err("par_fill(false) left ones".into()); }
+    Ok(())
+}
+
 /// reads over garbage storage; input [len, op, w0, w1, ...] — every read must equal the clean model
 fn stale_case(inp: &[u64]) -> Result<(), String> {
     let len = inp[0] as usize;
@@ -162,6 +182,8 @@ pub fn run(case: &str, ctx: &mut Ctx, one: Option<&str>, rng: &mut Rng, budget: 
             }
         }
         _ => {
+            // the rayon variants: inputs [len, seed, 0] with more than 100_000 words, full-word counts that are not multiples of the split length
+            for len in [64u64 * 100_000 + 64 * 123 + 17, 64 * 250_017, 64 * 100_000, 64 * 99_999 + 5] { let v = vec![len, 7 + len % 13, 0]; let s = fmt_list(&v); ctx.trial(&s, false, || run_one(case, &v)); }
             for i in 0..budget {
                 let v = vec![rng.next(), 5 + (i as u64 % 60)];
                 let s = fmt_list(&v);
@@ -176,6 +198,7 @@ fn run_one(case: &str, inp: &[u64]) -> Result<(), String> {
         "bitvec_iter_ones" => iter_case(true, inp),
         "bitvec_iter_zeros" => iter_case(false, inp),
         "bitvec_stale" => stale_case(inp),
+        _ if inp.len() == 3 => par_case(inp),
         _ => ops_case(inp),
     }
 }
